@@ -582,88 +582,99 @@ def run(cx):
         r.check((outp.kind == "return") if accept else (outp.kind == "raise" and outp.value == "ValueError"), f"parser.glyph/requires-eight-rows[{n_rows}]", (pm, psl), f"lcd.glyph(1, <{n_rows} rows>): parse() -> {outp.kind}:{outp.value if outp.kind != 'return' else 'program'}; {'eight rows must be accepted' if accept else 'the parser must reject bitmaps that do not have 8 rows'}")
 
     # ---- C17-PROGRESS ------------------------------------------------------------------------
-    r = cx.rule("C17-PROGRESS", "device fill = value*width/max_value computed after clamping value to 0..max_value, width to 1..cols and max_value >= 1 (monotone, saturating); host uses round(ratio*width) with the same clamps", floor=6)
-    pf = fns.get("__redu_lcd_progress")
-    if pf is None:
-        raise AnalysisError("__redu_lcd_progress vanished")
-    seen_fill = []
-
-    def on_stmt(s, st):
-        if s["k"] == "decl" and s["name"] == "filled":
-            seen_fill.append((s, st.copy()))
-
-    ex = Exec(on_stmt=on_stmt)
-    ex.run(pf["body"], [State()])
-    r.check(len(seen_fill) >= 1, "progress/filled-computed", (em.rel, em.const("LCD_HELPER_SNIPPET").lineno), "`filled` not found")
-    for s, st in seen_fill[:1]:
-        r.check(show(s["init"]) == "(((long)value * width) / max_value)", "progress/fill=value*width/max", (em.rel, em.const("LCD_HELPER_SNIPPET").lineno), f"filled = {show(s['init'])}")
-        v, w, mx = st.v.get("value", Iv()), st.v.get("width", Iv()), st.v.get("max_value", Iv())
-        r.check(v.lo >= 0 and "max_value" in st.hi.get("value", ()), "progress/value-clamped-0..max", (em.rel, em.const("LCD_HELPER_SNIPPET").lineno), f"value in {v}, <= {sorted(st.hi.get('value', ()))}")
-        r.check((w.lo > 0 or (w.lo == 0 and w.lo_s)) and ("cols" in st.hi.get("width", ())), "progress/width-clamped-1..cols", (em.rel, em.const("LCD_HELPER_SNIPPET").lineno), f"width in {w}, <= {sorted(st.hi.get('width', ()))}")
-        r.check(mx.lo > 0 or (mx.lo == 0 and mx.lo_s), "progress/max>=1", (em.rel, em.const("LCD_HELPER_SNIPPET").lineno), f"max_value in {mx}")
-    hp = hm.func("LCD.progress")
-    hloc = Locals(hp)
-    want_defs = {
-        "total_width": "self.cols if width is None else max(1, min(self.cols, int(width)))",
-        "ratio": "0 if max_value <= 0 else max(0.0, min(1.0, float(value) / float(max_value)))",
-        "filled": "int(round(ratio * total_width))",
-        "empty": "max(0, total_width - filled)",
-        "bar": "glyph * filled + ' ' * empty",
-    }
-    for v_, want_ in want_defs.items():
-        defs_ = [norm(d) for d in hloc.defs.get(v_, []) if isinstance(d, ast.expr)]
-        # exactly one definition: a second assignment (a width shrunk to make room for the label ...) changes the bar the
-        # firmware still draws against the requested width
-        r.check(defs_ == [want_], f"LCD.progress/host[{v_}]", (hm, hp), f"host progress computes {v_} as {defs_}; the firmware's bar is fill=value*width/max over the requested width clamped to 1..cols (expected the single definition `{want_}`)")
-
-    # host and firmware bar geometry on the complete small grid (the property's own tolerance): same bar width, fill equal
-    # whenever value*width is a multiple of max_value, never more than one cell apart, monotone in value
+    # decided by evaluation of both sides as a whole: the firmware helper (C semantics, cell model of the display) and the
+    # host LCD.progress (checker's interpreter) on a complete small grid
+    r = cx.rule("C17-PROGRESS", "progress bars, firmware helper vs host method on a grid (widths 8/16; width None/-2/0/1/5/cols/cols+3; max_value -1/0/1/3/10; value -4..14; with and without a label): the drawn row has exactly `cols` cells and nothing is printed outside it; the number of filled cells is the same on both sides whenever value*width is a multiple of max_value and never differs by more than one cell; the bar (filled + empty cells) has the same width; the fill is monotone in value and saturates at 0 and at the bar width", floor=500, exhaustive=True)
     from .. import ckern
-    from .. import dl as dl_
-    body_ = pf["body"]
-    cut = next((i for i, s_ in enumerate(body_) if s_["k"] == "decl" and s_["name"] == "bar"), None)
-    if cut is None:
-        raise AnalysisError("__redu_lcd_progress: the bar is no longer built in a local named bar")
-    hexprs = {v_: hloc.defs[v_][0] for v_ in ("total_width", "ratio", "filled") if len(hloc.defs.get(v_, [])) == 1}
+    from . import c04 as _c04p
+    from . import c18 as _c18
+    if "__redu_lcd_progress" not in fns:
+        raise AnalysisError("__redu_lcd_progress vanished")
+    _fresh, enum_ = _c18._anim_struct(em)
+    hp = hm.func("LCD.progress")
     n_bad = 0
-    if len(hexprs) == 3:
-        hint = dl_.Interp(hm)
-        selfobj = type("S", (dl_.Synth,), {})()
-        for cols in (8, 16):
-            selfobj.cols = cols
-            for width in (None, -2, 0, 1, 5, cols, cols + 3):
-                for mx_ in (-1, 0, 1, 3, 10):
-                    prev_h = prev_d = None
+
+    def bad(key, msg, where):
+        nonlocal n_bad
+        n_bad += 1
+        if n_bad <= 4:
+            r.fail(key, where, msg)
+        else:
+            r.stat.obligations += 1
+            r.stat.failed += 1
+
+    snip_where = (em.rel, em.const("LCD_HELPER_SNIPPET").lineno)
+    for cols in (8, 16):
+        for width in (None, -2, 0, 1, 5, cols, cols + 3):
+            for mx_ in (-1, 0, 1, 3, 10):
+                for label in ("", "ab"):
+                    prev_d = prev_h = None
                     for val in (-4, 0, 1, 2, 5, 9, 10, 14):
-                        env = dl_.Env(None)
-                        for k_, x_ in (("self", selfobj), ("width", width), ("max_value", mx_), ("value", val)):
-                            dict.__setitem__(env, k_, x_)
+                        # host
+                        o = _c04p.host_object(hm, "LCD", rs=12, en=11, d4=5, d5=4, d6=3, d7=2, cols=cols, rows=2)
                         try:
-                            for v_ in ("total_width", "ratio", "filled"):
-                                hint.steps = 0
-                                dict.__setitem__(env, v_, hint.expr(hexprs[v_], env))
-                        except dl_.Unsupported as e:
-                            raise AnalysisError(f"host progress formula left the evaluable subset: {e}")
-                        hw, hfill = env["total_width"], env["filled"]
-                        k = ckern.Kern(env={"cols": cols, "row": 0, "value": val, "max_value": mx_, "width": (cols if width is None else width), "fill": 35},
-                                       types={"cols": "int", "row": "int", "value": "int", "max_value": "int", "width": "int"})
+                            out = dl.Interp(hm).call(hp, [o, 0, val, mx_], {"width": width, "style": "hash", "label": (label or None)})
+                        except dl.Unsupported as e:
+                            raise AnalysisError(f"host LCD.progress left the evaluable subset: {e}")
+                        if out.kind != "return":
+                            bad("progress/host-accepts", f"host progress(0, {val}, {mx_}, width={width}, label={label!r}) raises {out.value}", (hm, hp))
+                            continue
+                        hrow = o.buffer[0]
+                        # firmware
+                        k = ckern.CallKern(fns, consts=enum_, max_steps=200000)
                         try:
-                            k.block(body_[:cut])
+                            k.ev(("call", "__redu_lcd_progress", [("lit", 0), ("lit", cols), ("lit", 0), ("lit", val), ("lit", mx_), ("lit", cols if width is None else width), ("lit", "#"), ("lit", '"' + label + '"')]))
                         except ckern.KernUnsupported as e:
-                            raise AnalysisError(f"__redu_lcd_progress kernel left the evaluable subset: {e}")
-                        dw, dfill = k.env["width"], k.env["filled"]
+                            raise AnalysisError(f"__redu_lcd_progress left the evaluable subset: {e}")
+                        d = Display(cols, 2, [" " * cols, "." * cols])
+                        d.feed(k.events)
+                        drow = d.rows_text()[0]
+                        case = f"progress(value={val}, max_value={mx_}, width={width}, label={label!r}) on {cols} columns"
+                        if d.outside or d.rows_text()[1] != "." * cols:
+                            bad("progress/firmware-stays-in-row", f"{case}: the firmware " + (f"prints outside the display at {d.outside[:2]}" if d.outside else "draws into the other row"), snip_where)
+                            continue
+                        if len(hrow) != cols:
+                            bad("progress/host-row-width", f"{case}: the host row is {hrow!r} ({len(hrow)} cells)", (hm, hp))
+                            continue
+                        hfill, dfill = hrow.count("#"), drow.count("#")
+                        hw = cols if width is None else max(1, min(cols, int(width)))
                         exact = (max(0, min(val, mx_)) * hw) % mx_ == 0 if mx_ > 0 else True
-                        good = dw == hw and abs(dfill - hfill) <= 1 and (not exact or dfill == hfill) and 0 <= dfill <= dw and (prev_d is None or dfill >= prev_d)
-                        prev_d = dfill
+                        prefix = (label + " ") if label else ""
+                        visible = max(0, min(hw, cols - len(prefix)))
+                        good = (abs(dfill - hfill) <= 1 and (not exact or dfill == hfill or min(dfill, hfill) >= visible)
+                                and drow[:len(prefix)] == hrow[:len(prefix)] and 0 <= dfill <= hw
+                                and (prev_d is None or dfill >= prev_d) and (prev_h is None or hfill >= prev_h))
+                        prev_d, prev_h = dfill, hfill
                         if good:
                             r.ok(None)
                         else:
-                            n_bad += 1
-                            if n_bad <= 3:
-                                r.fail("progress/bar-geometry=host", (em.rel, em.const("LCD_HELPER_SNIPPET").lineno), f"progress(value={val}, max_value={mx_}, width={width}) on {cols} columns: firmware draws {dfill} of {dw} cells, host {hfill} of {hw}", detail={"cols": cols, "value": val, "max_value": mx_, "width": width})
-                            else:
-                                r.stat.obligations += 1
-                                r.stat.failed += 1
+                            bad("progress/bar-geometry=host", f"{case}: firmware row {drow!r} ({dfill} filled), host row {hrow!r} ({hfill} filled); the fills must agree (exactly when value*width is a multiple of max_value, within one cell otherwise), lie within the bar of {hw} cells and grow with the value", snip_where)
+
+    # exact multiples on wider displays (value*width a multiple of max_value: both sides must fill the same number of cells -
+    # a float product that lands just below the integer must not lose a cell)
+    for cols in (20, 22, 23, 26, 39, 40):
+        for mx_ in range(1, 45):
+            for val in range(0, mx_ + 1):
+                if (val * cols) % mx_ != 0 or (mx_ > 12 and val not in (0, mx_) and (val * cols) // mx_ in (0, cols)):
+                    continue
+                o = _c04p.host_object(hm, "LCD", rs=12, en=11, d4=5, d5=4, d6=3, d7=2, cols=cols, rows=2)
+                try:
+                    out = dl.Interp(hm).call(hp, [o, 0, val, mx_], {"style": "hash"})
+                except dl.Unsupported as e:
+                    raise AnalysisError(f"host LCD.progress left the evaluable subset: {e}")
+                k = ckern.CallKern(fns, consts=enum_, max_steps=200000)
+                try:
+                    k.ev(("call", "__redu_lcd_progress", [("lit", 0), ("lit", cols), ("lit", 0), ("lit", val), ("lit", mx_), ("lit", cols), ("lit", "#"), ("lit", '""')]))
+                except ckern.KernUnsupported as e:
+                    raise AnalysisError(f"__redu_lcd_progress left the evaluable subset: {e}")
+                d = Display(cols, 2, [" " * cols, "." * cols])
+                d.feed(k.events)
+                hfill = o.buffer[0].count("#") if out.kind == "return" else None
+                dfill = d.rows_text()[0].count("#")
+                if hfill == dfill == (val * cols) // mx_:
+                    r.ok(None)
+                else:
+                    bad("progress/exact-multiples-fill-equal", f"progress(value={val}, max_value={mx_}) on {cols} columns: value*width/max_value is exactly {(val * cols) // mx_} cells; the firmware fills {dfill}, the host {hfill}", snip_where if dfill != (val * cols) // mx_ else (hm, hp))
 
     # ---- C17-CELLS ---------------------------------------------------------------------------
     rule_cells(cx, "C17-CELLS", em, hm, fns)
